@@ -531,7 +531,7 @@ func c07R3(c *Check, sr *serverRoles) {
 		ts := trueSuccessors(site.(*ssa.Call))
 		ok := len(ts) > 0
 		for _, s := range ts {
-			if !allConstBool(returnsReachable(s, isRuleCall), true) {
+			if !returnsAllYield(s, isRuleCall, true) {
 				ok = false
 			}
 		}
@@ -700,7 +700,7 @@ func c07R3(c *Check, sr *serverRoles) {
 			exclSites = append(exclSites, site)
 			ok := len(ts) > 0
 			for _, s := range ts {
-				if !allConstBool(returnsReachable(s, isSM), false) {
+				if !returnsAllYield(s, isSM, false) {
 					ok = false
 				}
 			}
@@ -710,7 +710,7 @@ func c07R3(c *Check, sr *serverRoles) {
 			nIn++
 			ok := len(ts) > 0
 			for _, s := range ts {
-				if !allConstBool(returnsReachable(s, isSM), true) {
+				if !returnsAllYield(s, isSM, true) {
 					ok = false
 				}
 			}
@@ -790,7 +790,7 @@ func c07R3(c *Check, sr *serverRoles) {
 			ts := trueSuccessors(bo)
 			good := len(ts) > 0
 			for _, s := range ts {
-				if !allConstBool(returnsReachable(s, isSM), true) {
+				if !returnsAllYield(s, isSM, true) {
 					good = false
 				}
 			}
@@ -1064,4 +1064,113 @@ func isCutPrefixOf(v ssa.Value, in ssa.Value, want map[string]bool) bool {
 		}
 	}
 	return false
+}
+
+// returnsAllYield: every return reachable from block b (not crossing barrier) yields the boolean `want` —
+// as a constant, or as a boolean phi whose value on the path taken is `want` (`found = true; break` …
+// `return found`). Path-sensitive in the same way as reachAvoiding: only constant-valued phi edges are
+// followed, so this can only accept more than the constant-only test on paths that are really taken.
+func returnsAllYield(b *ssa.BasicBlock, barrier func(ssa.Instruction) bool, want bool) bool {
+	type key struct {
+		b   *ssa.BasicBlock
+		env string
+	}
+	seen := map[key]bool{}
+	n := 0
+	ok := true
+	states := 0
+	var walk func(b *ssa.BasicBlock, env map[*ssa.Phi]bool)
+	walk = func(b *ssa.BasicBlock, env map[*ssa.Phi]bool) {
+		if !ok {
+			return
+		}
+		var parts []string
+		for p, v := range env {
+			parts = append(parts, fmt.Sprintf("%p=%v", p, v))
+		}
+		sort.Strings(parts)
+		k := key{b, strings.Join(parts, ",")}
+		if seen[k] {
+			return
+		}
+		seen[k] = true
+		states++
+		if states > 4000 {
+			ok = false
+			return
+		}
+		for _, ins := range b.Instrs {
+			if barrier != nil && barrier(ins) {
+				return
+			}
+			if r, isR := ins.(*ssa.Return); isR {
+				n++
+				v := r.Results[0]
+				if cv, isC := constBool(v); isC {
+					if cv != want {
+						ok = false
+					}
+					return
+				}
+				inner, neg := unwrapBool(v)
+				if ph, isPhi := inner.(*ssa.Phi); isPhi {
+					if pv, known := env[ph]; known && (pv != neg) == want {
+						return
+					}
+				}
+				ok = false
+				return
+			}
+		}
+		succs := b.Succs
+		if len(succs) == 2 && len(b.Instrs) > 0 {
+			if iff, isIf := b.Instrs[len(b.Instrs)-1].(*ssa.If); isIf {
+				inner, neg := unwrapBool(iff.Cond)
+				if ph, isPhi := inner.(*ssa.Phi); isPhi {
+					if v, known := env[ph]; known {
+						if v != neg {
+							succs = succs[:1]
+						} else {
+							succs = succs[1:]
+						}
+					}
+				}
+			}
+		}
+		for _, s := range succs {
+			next := map[*ssa.Phi]bool{}
+			for p, v := range env {
+				next[p] = v
+			}
+			for _, ins := range s.Instrs {
+				ph, isPhi := ins.(*ssa.Phi)
+				if !isPhi {
+					break
+				}
+				if !isBool(ph.Type()) {
+					continue
+				}
+				delete(next, ph)
+				for i, pb := range s.Preds {
+					if pb != b || i >= len(ph.Edges) {
+						continue
+					}
+					if cv, isC := constBool(ph.Edges[i]); isC {
+						next[ph] = cv
+					} else if q, isQ := ph.Edges[i].(*ssa.Phi); isQ {
+						if qv, has := env[q]; has {
+							next[ph] = qv
+						}
+					}
+					break
+				}
+			}
+			if len(next) > 6 {
+				next = map[*ssa.Phi]bool{}
+			}
+			walk(s, next)
+		}
+	}
+	walk(b, map[*ssa.Phi]bool{})
+	return ok && n > 0
 }
